@@ -3,7 +3,7 @@ import itertools
 import lib
 from lib import cstr, cN, clist
 
-NAMES = ["a", "b c", "N", "é", "1", "2", "3", "07", "x-y"]
+NAMES = ["a", "b c", "N", "é", "1", "2", "3", "07", "x-y", "\u00b2", "\u2460"]
 VALUES = ["x", "y z", "v=w", "Zz", "0", "ü"]
 LEAD = ["", " ", "\n", " \n ", "\t"]
 TRAIL_POS = ["", " ", "  "]          # positional: no trailing newline (quantifier: leading/inner newlines)
@@ -12,7 +12,7 @@ INNER = ["", "\n", " "]
 
 
 def key_of(name):
-    return int(name) if name.isdigit() and int(name) > 0 else name
+    return int(name) if name.isascii() and name.isdigit() and int(name) > 0 else name
 
 
 def gen_args(rng, n, distinct=True):
